@@ -10,13 +10,43 @@ import (
 // every generator goes through it, so shrinking and seeding are rapid's.
 type G struct{ T *rapid.T }
 
-func (g G) Int(lo, hi int) int { return rapid.IntRange(lo, hi).Draw(g.T, "i") }
-func (g G) Bool() bool         { return rapid.Bool().Draw(g.T, "b") }
+// bits draws k unbiased bits (rapid.Bool is an unbiased single bit; rapid's
+// integer generators are deliberately biased towards small values, which
+// would distort probabilities and index choices). Shrinks towards 0.
+func (g G) bits(k int) int {
+	bs := rapid.SliceOfN(rapid.Bool(), k, k).Draw(g.T, "bits")
+	u := 0
+	for _, b := range bs {
+		u <<= 1
+		if b {
+			u |= 1
+		}
+	}
+	return u
+}
+
+// Int draws uniformly from [lo, hi] (modulo bias < 1/8 of one value's mass).
+func (g G) Int(lo, hi int) int {
+	n := hi - lo + 1
+	if n <= 1 {
+		return lo
+	}
+	k := 3
+	for x := n - 1; x > 0; x >>= 1 {
+		k++
+	}
+	return lo + g.bits(k)%n
+}
+
+// Small draws from [lo, hi] with rapid's bias towards small values.
+func (g G) Small(lo, hi int) int { return rapid.IntRange(lo, hi).Draw(g.T, "i") }
+
+func (g G) Bool() bool { return rapid.Bool().Draw(g.T, "b") }
 
 // Pct is true with probability p/100 (shrinks towards false).
-func (g G) Pct(p int) bool { return rapid.IntRange(0, 99).Draw(g.T, "p") >= 100-p }
+func (g G) Pct(p int) bool { return g.bits(10)%100 < p && p > 0 }
 
-func Pick[E any](g G, xs []E) E { return xs[rapid.IntRange(0, len(xs)-1).Draw(g.T, "k")] }
+func Pick[E any](g G, xs []E) E { return xs[g.Int(0, len(xs)-1)] }
 
 var (
 	AllNames = []string{"a", "b", "cd", "ef"}
